@@ -136,36 +136,88 @@ def find_calls(fi: FunctionInfo, attr: str = None, name: str = None) -> List[ast
     return out
 
 
-def receive_loops(p: Program) -> List[Tuple[FunctionInfo, ast.While]]:
-    """Role query: an ``async def`` under indi/transport with ``await <x>.read(...)`` /
-    ``readline()`` (directly or through a one-line wrapper method) inside a ``while``."""
+class Loop(tuple):
+    """(function, while node) of one receive loop as one concrete class runs it; ``owner`` is that class (None for a
+    module-level function), ``short`` names the loop by its owner (where the body is defined does not matter) and
+    ``self_val`` is the symbolic receiver to explore it with (methods it calls resolve on the owner)."""
+
+    def __new__(cls, fi, wh, owner):
+        o = super().__new__(cls, (fi, wh))
+        o.owner = owner
+        return o
+
+    @property
+    def short(self):
+        fi = self[0]
+        return f"{self.owner.short}.{fi.name}" if self.owner is not None else fi.short
+
+    @property
+    def self_val(self):
+        from ..absint import Term
+        fi = self[0]
+        if self.owner is None:
+            return None
+        a = fi.node.args
+        names = [x.arg for x in a.posonlyargs + a.args]
+        return Term("param", names[0] if names else "self", hint=self.owner)
+
+
+def _is_abstract(ci) -> bool:
+    """A class that cannot be instantiated: one of the names its MRO declares abstract is still abstract when resolved."""
+    for c in ci.mro:
+        for n, m in c.methods.items():
+            if any(d.split(".")[-1] == "abstractmethod" for d in getattr(m, "decorators", [])):
+                r = ci.find_method(n)
+                if r is None or any(d.split(".")[-1] == "abstractmethod" for d in getattr(r, "decorators", [])):
+                    return True
+    return False
+
+
+def _loop_in(fi, resolve):
+    for n in walk_no_nested(fi.node):
+        if isinstance(n, ast.While):
+            for m in ast.walk(n):
+                if isinstance(m, ast.Await) and isinstance(m.value, ast.Call) and isinstance(m.value.func, ast.Attribute):
+                    a = m.value.func.attr
+                    if a in ("read", "readline", "readexactly", "readuntil"):
+                        return n
+                    # one-line wrapper on self (tty: self._read() -> await self.stdin.readline())
+                    if resolve is not None and isinstance(m.value.func.value, ast.Name) and m.value.func.value.id == "self":
+                        w = resolve(a)
+                        if w is not None and w.is_async and any(isinstance(x, ast.Attribute) and x.attr in ("read", "readline", "readexactly", "readuntil") for x in ast.walk(w.node)):
+                            return n
+    return None
+
+
+def receive_loops(p: Program) -> List[Loop]:
+    """Role query: an ``async def`` that a concrete class under indi/transport runs (its own or inherited) with
+    ``await <x>.read(...)`` / ``readline()`` (directly or through a wrapper method of the class) inside a ``while``.
+    One entry per (concrete class, method): a loop written once in a shared base class counts for every class that
+    runs it, with the hooks it calls resolved on that class."""
     out = []
-    for fi in p.functions:
-        if not fi.module.name.startswith("indi.transport") or not fi.is_async:
+    seen = set()
+    for ci in p.classes.values():
+        if not ci.module.name.startswith("indi.transport") or _is_abstract(ci):
             continue
-        for n in walk_no_nested(fi.node):
-            if isinstance(n, ast.While):
-                for m in ast.walk(n):
-                    if isinstance(m, ast.Await) and isinstance(m.value, ast.Call) and isinstance(m.value.func, ast.Attribute):
-                        a = m.value.func.attr
-                        if a in ("read", "readline", "readexactly", "readuntil"):
-                            out.append((fi, n))
-                            break
-                        # one-line wrapper on self (tty: self._read() -> await self.stdin.readline())
-                        if fi.cls is not None and isinstance(m.value.func.value, ast.Name) and m.value.func.value.id == "self":
-                            w = fi.cls.find_method(a)
-                            if w is not None and w.is_async and any(
-                                isinstance(x, ast.Attribute) and x.attr in ("read", "readline") for x in ast.walk(w.node)
-                            ):
-                                out.append((fi, n))
-                                break
-    # de-duplicate (outermost while per function)
-    seen, res = set(), []
-    for fi, n in out:
-        if fi.qualname not in seen:
-            seen.add(fi.qualname)
-            res.append((fi, n))
-    return res
+        names = []
+        for c in ci.mro:
+            for n in c.methods:
+                if n not in names:
+                    names.append(n)
+        for n in names:
+            fi = ci.find_method(n)
+            if fi is None or not fi.is_async:
+                continue
+            wh = _loop_in(fi, ci.find_method)
+            if wh is not None and (ci.qualname, n) not in seen:
+                seen.add((ci.qualname, n))
+                out.append(Loop(fi, wh, ci))
+    for fi in p.functions:
+        if fi.cls is None and fi.module.name.startswith("indi.transport") and fi.is_async:
+            wh = _loop_in(fi, None)
+            if wh is not None:
+                out.append(Loop(fi, wh, None))
+    return out
 
 
 def path_text(pa, limit=14) -> List[str]:
